@@ -795,8 +795,8 @@ def realize_real(case):
                 row[nm] = (np.array([x[k]]) * phys).to(row[nm].unit)
             from thejoker.data_helpers import validate_prepare_data
             merged = validate_prepare_data(data, c["poly"], c["noff"])[0]
-            if c["noff"] == 0:
-                lnl = float(np.atleast_1d(row.ln_unmarginalized_likelihood(merged))[0])
+            if True:       # with and without survey offsets: the row's unmarginalised likelihood takes what the sampler takes
+                lnl = float(np.atleast_1d(row.ln_unmarginalized_likelihood(data))[0])
                 lam_, mu_ = go.lam(c2), go.mu(c2)
                 lnprior = float(-0.5 * np.sum((x - mu_) ** 2 / lam_ + np.log(2 * np.pi * lam_)))
                 d = x - a_o
